@@ -45,6 +45,9 @@ def run(res, work, tier, seed):
     if drift:
         res.drift.append(dict(count=len(drift), first=dict(line=drift[0][0], clause=drift[0][1])))
     res.judge_fails(real, lines, lambda ln: vlib.case_context(lines, max(ln, 1), lambda s: '"e":"cfg"' in s, max_lines=60))
+    if meta.get("hung"):
+        # a hang of the reporter is C14's subject; the cases completed before it are judged here
+        res.extra.setdefault("other_property_observations", {})["NoDeadlock"] = "the reporter hung in case %d: %s" % (meta["cases"] + 1, meta.get("where"))
     res.evaluations += meta["evals"]
     res.distinct += meta["distinct"]
     res.samples += meta["samples"][:3]
